@@ -221,6 +221,8 @@ fn public_batch(pb: &VData, m: usize, n: usize) -> VData {
 enum Edit {
     Bytes(Vec<u8>),
     Sparse(u64),
+    /// a symbolic link to the given (existing) file
+    Link(PathBuf),
     Dir,
     Remove,
 }
@@ -251,6 +253,7 @@ impl Fx {
                         std::fs::write(&p, b)
                     }
                     Edit::Sparse(len) => std::fs::File::create(&p)?.set_len(len),
+                    Edit::Link(target) => std::os::unix::fs::symlink(target, &p),
                     Edit::Dir => {
                         std::fs::create_dir_all(&p)?;
                         std::fs::write(p.join("inner.bin"), b"planted")
@@ -1105,6 +1108,13 @@ fn section_caps(rep: &Report, fx: &Fx) -> Value {
             (format!("{} = canonical bytes zero-padded to cap+1 (real file)", fname(pos)), write("o2", &padded(canon, cap1 + 1, 0))),
             (format!("{} = sparse file of cap+1", fname(pos)), sparse("o3", cap1 + 1)),
             (format!("{} = sparse file of 64 MiB + 1", fname(pos)), sparse("o4", cap64 + 1)),
+            (format!("{} = symbolic link to a sparse file of cap+1", fname(pos)), {
+                let target = sparse("o5-target", cap1 + 1);
+                let l = dir.join("o5");
+                let _ = std::fs::remove_file(&l);
+                std::os::unix::fs::symlink(&target, &l).unwrap_or_else(|e| die(&format!("symlink o5: {e}")));
+                l
+            }),
         ];
         for (label, p) in &over {
             let f: Call = call(|| if pos == 0 { WormholeVerifier::new_from_files(p, &good_c) } else { WormholeVerifier::new_from_files(&good_v, p) });
@@ -1119,6 +1129,12 @@ fn section_caps(rep: &Report, fx: &Fx) -> Value {
         let mut v = vec![0x5au8; (cap64 + 1) as usize];
         v[..fx.leaf_c.len()].copy_from_slice(&fx.leaf_c);
         write("big-real.bin", &v)
+    };
+    let big_link = {
+        let l = dir.join("big-link.bin");
+        let _ = std::fs::remove_file(&l);
+        std::os::unix::fs::symlink(&big_sparse, &l).unwrap_or_else(|e| die(&format!("symlink big-link: {e}")));
+        l
     };
     let at_cap = sparse("at-cap.bin", cap64);
     let below_cap = sparse("below-cap.bin", cap64 - 1);
@@ -1145,7 +1161,7 @@ fn section_caps(rep: &Report, fx: &Fx) -> Value {
     }
     let g = |n: &str| fx.good.join(n);
     let mut calls: Vec<(String, Call)> = Vec::new();
-    for (shape, big) in [("sparse file of cap+1", &big_sparse), ("real file of cap+1 with a canonical prefix", &big_real)] {
+    for (shape, big) in [("sparse file of cap+1", &big_sparse), ("real file of cap+1 with a canonical prefix", &big_real), ("symbolic link to a sparse file of cap+1", &big_link)] {
         calls.push((format!("read_artifact_file({shape})"), call(move || read_artifact_file(big))));
         calls.push((format!("PrivateBatchProver::new_from_files(common.bin = {shape})"), call(move || PrivateBatchProver::new_from_files(big, &g("verifier.bin"), &g("dummy_proof.bin"), N_LEAF))));
     }
@@ -1183,6 +1199,19 @@ fn section_caps(rep: &Report, fx: &Fx) -> Value {
     for name in ["private_batch_common.bin", "private_batch_verifier.bin"] {
         let d = over_dir(name);
         calls.push((format!("generate_public_batch_circuit_binaries({name} = sparse file of cap+1)"), call(move || generate_public_batch_circuit_binaries(&d, M_PRIV, N_LEAF))));
+    }
+    // a directory entry that is a symbolic link to an over-cap file outside the directory
+    for name in ["common.bin", "dummy_proof.bin"] {
+        let d = fx.dir_with("caplink", vec![(name, Edit::Link(big_sparse.clone()))]);
+        dirs.push(d.clone());
+        calls.push((format!("PrivateBatchProver::new_from_binaries_dir({name} = symbolic link to a sparse file of cap+1)"), call(move || PrivateBatchProver::new_from_binaries_dir(&d))));
+    }
+    for name in ["private_batch_verifier.bin"] {
+        let d = fx.dir_with("caplink", vec![(name, Edit::Link(big_sparse.clone()))]);
+        dirs.push(d.clone());
+        let d2 = d.clone();
+        calls.push((format!("PublicBatchProver::new_from_binaries_dir({name} = symbolic link to a sparse file of cap+1)"), call(move || PublicBatchProver::new_from_binaries_dir(&d))));
+        calls.push((format!("PublicBatchAggregator::with_limits({name} = symbolic link to a sparse file of cap+1)"), call(move || aggregator(&d2))));
     }
     for (label, f) in &calls {
         check_overcap(rep, &format!("overcap:{label}"), label, f, &max_read);
